@@ -118,6 +118,9 @@ type edSpec struct {
 type edState struct {
 	Activations int    `json:"activations"`
 	Received    uint64 `json:"received"` // running checksum of everything retrieved
+	// Table is seeded by the assembly code (like a simulator's setup fills a routing or
+	// page table) and shrinks/grows while the component runs.
+	Table map[string]int `json:"table"`
 }
 
 // inexact maps periods that are not a divisor of 10^12 to a real-world frequency whose
@@ -144,6 +147,12 @@ func (c *scomp) activation(now timing.VTimeInPicoSec) bool {
 	st := c.state()
 	k := st.Activations
 	st.Activations++
+	if k == 0 {
+		delete(st.Table, "boot")
+	}
+	if k%3 == 2 {
+		st.Table[fmt.Sprintf("k%d", k)] = k
+	}
 	progress := false
 	if c.cfg.Drain && k >= c.cfg.Stall {
 		for _, p := range c.ports {
@@ -351,12 +360,14 @@ func buildWith(cfg SysCfg, sim *simulation.Simulation, _ string, muts ...Mut) *s
 			c.ed = modeling.NewEventDrivenBuilder[edSpec, edState, modeling.None]().WithEngine(s.eng).
 				WithSpec(spec).WithProcessor(c).Build(cc.Name)
 			c.owner = c.ed
+			c.ed.State.Table = map[string]int{"setup": 1, "boot": 2}
 			regr.RegisterComponent(c.ed)
 		} else {
 			c.tc = modeling.NewBuilder[edSpec, edState, modeling.None]().WithEngine(s.eng).WithFreq(freqOf(cc.Period)).
 				WithSpec(spec).Build(cc.Name)
 			c.tc.AddMiddleware(c)
 			c.owner = c.tc
+			c.tc.State.Table = map[string]int{"setup": 1, "boot": 2}
 			regr.RegisterComponent(c.tc)
 		}
 		for _, pc := range cc.Ports {
@@ -564,7 +575,7 @@ func twoStall(rng *rand.Rand) SysCfg {
 		mk("A", 0, burst("A.P", "X.P", 3+rng.Intn(3)), 1, 1+rng.Intn(2)),
 		mk("B", 0, burst("B.P", "Y.P", 3+rng.Intn(3)), 1, 1+rng.Intn(2)),
 		mk("X", 2+rng.Intn(6), wakes(12, 1000*(1+rng.Intn(3))), in, 1),
-		mk("Y", 2+rng.Intn(6), wakes(12, 1000*(1+rng.Intn(3))), in, 1),
+		mk("Y", []int{2 + rng.Intn(6), 1000}[rng.Intn(2)], wakes(12, 1000*(1+rng.Intn(3))), in, 1),
 	}
 	for _, c := range cfg.Comps {
 		cfg.Init = append(cfg.Init, struct {
